@@ -177,6 +177,125 @@ def gcdFactors (n : Nat) (vals : List Nat) (pp : Nat → Bool) : Option (List Na
       | none => none
       | some rest => some (facs, rest)
 
+
+/-! ### check_gcd_factors (pollard_pm1.rs, pp1.rs), check_gcd_factor (ecm.rs), rho_impl return guard -/
+
+structure CgfState where
+  factors : List Nat
+  nred : Nat
+  vals : List Nat
+  deriving DecidableEq
+
+/-- `check_gcd_factors(n, factors, nred, values, _)`: `(returned bool, state after the call)`; `none` = panic.
+`gcd_factors` is called on the *reduced* modulus; a factor list containing `n` itself stops the run without
+recording anything (`fs.contains(n)`); otherwise the factors are appended, `nred` replaced, and the value list
+is cut down to its last element unless the run is complete (`nred == 1 || pseudoprime(nred)`). -/
+def checkGcdFactors (n : Nat) (pp : Nat → Bool) (st : CgfState) : Option (Bool × CgfState) :=
+  match gcdFactors st.nred st.vals pp with
+  | none => none
+  | some (fs, nred') =>
+    if fs.contains n then some (true, st)
+    else
+      let st1 : CgfState := if fs.isEmpty then st else { st with factors := st.factors ++ fs, nred := nred' }
+      if !fs.isEmpty && (nred' == 1 || pp nred') then some (true, st1)
+      else
+        match st.vals.getLast? with
+        | none => none
+        | some last => some (false, { st1 with vals := [last] })
+
+/-- what `pm1_impl` / `pp1` return from the accumulated state -/
+def splitResult (st : CgfState) : Option (List Nat × Nat) :=
+  if st.factors.isEmpty then none else some (st.factors, st.nred)
+
+/-- `ecm::check_gcd_factor(n, values)`: the largest returned factor different from `n` -/
+def checkGcdFactor (n : Nat) (vals : List Nat) (pp : Nat → Bool) : Option (Option Nat) :=
+  match gcdFactors n vals pp with
+  | none => none
+  | some (fs, _) => some ((fs.filter (· != n)).max?)
+
+/-- the end of `rho_impl`: `gcd_factors(n, prods)`, refused when nothing or everything was found -/
+def rhoImplResult (n : Nat) (prods : List Nat) (pp : Nat → Bool) : Option (Option (List Nat × Nat)) :=
+  match gcdFactors n prods pp with
+  | none => none
+  | some (fs, nred) => if nred == 1 || nred == n then some none else some (some (fs, nred))
+
+/-! `rho_impl` itself, on raw Montgomery words (`R = 2^(64k)`, k words): `x ↦ x²/R + 1`, `x2` two steps per
+iteration, `prod ← prod · (x2 − x1) / R`. -/
+
+/-- `-n⁻¹ mod R` by Newton iteration (`R = 2^bits`, n odd) -/
+def negInvPow2 (n R : Nat) : Nat :=
+  let x := (List.range 11).foldl (fun x _ => x * (2 * R + 2 - n * x % R) % R) 1
+  (R - x) % R
+
+def montMul (n R ninv a b : Nat) : Nat :=
+  let t := a * b
+  let m := t % R * ninv % R
+  let u := (t + m * n) / R
+  if u ≥ n then u - n else u
+
+def rhoImplLoop (n R ninv : Nat) : Nat → Nat → Nat → Nat → List Nat → List Nat
+  | 0, _, _, _, acc => acc.reverse
+  | f + 1, x1, x2, prod, acc =>
+    let x1 := (montMul n R ninv x1 x1 + 1) % n
+    let x2 := (montMul n R ninv x2 x2 + 1) % n
+    let x2 := (montMul n R ninv x2 x2 + 1) % n
+    let prod := montMul n R ninv prod ((x2 + n - x1) % n)
+    rhoImplLoop n R ninv f x1 x2 prod (prod :: acc)
+
+/-- `rho_impl(n, seed, iters)` for odd `n ≥ 3` below 2^512 -/
+def rhoImpl (n seed iters : Nat) (pp : Nat → Bool) : Option (Option (List Nat × Nat)) :=
+  if n < 2 ^ 63 ∧ ¬ seed < n then none                 -- assert!(n.bits() >= 64 || seed < n.digits()[0])
+  else
+    let k := (bitlen n + 63) / 64
+    let R := 2 ^ (64 * k)
+    let ninv := negInvPow2 n R
+    let s := seed * R % n
+    rhoImplResult n (rhoImplLoop n R ninv iters s s (R % n) []) pp
+
+/-! ### y-normalisation of `ecm_curve` (both implementations): steps are pairs `(y, z)` -/
+
+/-- `for i in 1..l { y[i] *= u; u *= z[i] }` from a given `u` -/
+def ynPass {α} (mul : α → α → α) : α → List (α × α) → List (α × α)
+  | _, [] => []
+  | u, (y, z) :: t => (mul y u, z) :: ynPass mul (mul u z) t
+
+/-- one direction: the first element is left alone and `u` starts as its `z` -/
+def ynHead {α} (mul : α → α → α) : List (α × α) → List (α × α)
+  | [] => []
+  | (y, z) :: t => (y, z) :: ynPass mul z t
+
+/-- forward pass (`u = steps[0].2`, indices `1..l`), then backward pass (`u = steps[l-1].2`, indices `l-2 .. 0`) -/
+def ynorm {α} (mul : α → α → α) (l : List (α × α)) : List (α × α) :=
+  (ynHead mul (ynHead mul l).reverse).reverse
+
+/-! ### PM1Base::factor (64-bit two-stage P-1): which exponents stage 2 tests -/
+
+/-- `fmax`: number of small-prime blocks applied in stage 1. `c = (1024, 1001, 1000, 64, 503)` are the constants
+of the source (`Gen/Stage2Arms.pm1base`). -/
+def pm1baseFmax (c : Nat × Nat × Nat × Nat × Nat) (nf budget : Nat) : Nat := min nf (budget * nf / c.1)
+
+/-- the gap walk: `h` is `xr^e` with `e` the *actual* exponent (`jumps[gap/2 - 1] = xr^(2*(gap/2))`), `exp` the nominal
+one (`exp = p`). `none` = `jumps` index out of range or `p - exp` underflows. -/
+def pm1baseGaps (njumps : Nat) : Nat → Nat → List Nat → List Nat → Option (List Nat)
+  | _, _, [], acc => some acc.reverse
+  | exp, e, p :: t, acc =>
+    if p < exp then none
+    else
+      let gap := p - exp
+      if gap / 2 = 0 ∨ gap / 2 - 1 ≥ njumps then none
+      else pm1baseGaps njumps p (e + 2 * (gap / 2)) t ((e + 2 * (gap / 2)) :: acc)
+
+/-- exponents `e` for which `h^e - 1` enters the product (`[]` when `budget < 1001`: no stage 2) -/
+def pm1baseTested (c : Nat × Nat × Nat × Nat × Nat) (larges : List Nat) (budget : Nat) : Option (List Nat) :=
+  match c with
+  | (_, minBudget, off, njumps, first) =>
+    if budget < minBudget then some []
+    else
+      let pmax := min larges.length (budget - off)
+      if pmax < 1 then none                                  -- `self.larges[1..pmax]`
+      else if larges.head? != some first then none           -- debug_assert!(self.larges[0] == 503)
+      else pm1baseGaps njumps first first ((larges.take pmax).drop 1) [first]
+
 /-! ### rho64 -/
 
 def absDiff (a b : Nat) : Nat := if a ≤ b then b - a else a - b
